@@ -3,6 +3,6 @@
 cd "$(dirname "$0")/.."
 T=${1:-quick}
 for p in $(python3 -c "import json; print(' '.join(c['property_id'] for c in json.load(open('MANIFEST.json'))['checks']))"); do
-  s=$(date +%s); ./check $p $T > /tmp/runall-$p.log 2>&1; rc=$?; e=$(date +%s)
-  echo "$p rc=$rc $((e-s))s viol=$(grep -c '^VIOLATION' /tmp/runall-$p.log) known=$(grep -c '^KNOWN-FINDING' /tmp/runall-$p.log)"
+  s=$(date +%s); ./check $p $T > /tmp/runall-$T-$p.log 2>&1; rc=$?; e=$(date +%s)
+  echo "$p rc=$rc $((e-s))s viol=$(grep -c '^VIOLATION' /tmp/runall-$T-$p.log) known=$(grep -c '^KNOWN-FINDING' /tmp/runall-$T-$p.log)"
 done
